@@ -920,3 +920,88 @@ def graph_shapes(tier):
         "a": T([N(S, ["b", "c"])]), "b": T([N(S, "j")]), "c": T([N(S, "j")]),
         "j": T(join=1, retry={"count": 2, "delay": 1, "when": F})})))
     return out
+
+
+# ----------------------------------------------------------------------------- C20 shorthand / long form pairs
+INLINE_VALUES = [
+    # (text in the inline notation, value it denotes in the long form)
+    ("5", 5), ("0", 0), ("-3", -3), ("1.5", 1.5), ("-0.5", -0.5), ("10", 10),
+    ("true", True), ("True", True), ("TRUE", True), ("false", False), ("False", False),
+    ("null", None),
+    ("'abc'", "abc"), ('"abc"', "abc"), ("'a b'", "a b"), ('"a b"', "a b"),
+    ('"a=b"', "a=b"), ("'a=b'", "a=b"), ('"a, b"', "a, b"), ('"x in y"', "x in y"), ("'k=v j=w'", "k=v j=w"),
+    ("'1'", "1"), ('"1.5"', "1.5"), ('"true"', "true"), ("'null'", "null"), ('"-3"', "-3"),
+    ("'{\"a\": 1}'", {"a": 1}), ("'{\"a\": \"b c\", \"d\": [1, 2]}'", {"a": "b c", "d": [1, 2]}),
+    ("<% ctx(x) %>", "<% ctx(x) %>"), ("{{ ctx('x') }}", "{{ ctx('x') }}"),
+    ('"<% ctx(x) %>"', "<% ctx(x) %>"), ("<% ctx(x) + 1 %>", "<% ctx(x) + 1 %>"),
+    ("'it is'", "it is"), ('"semi;colon"', "semi;colon"),
+]
+
+DELIMS = [" ", ", ", "; ", ","]
+
+
+def c20_pairs(tier):
+    out = []
+
+    def base(t1_short, t1_long, pub_short=None, pub_long=None, do_short="t2", do_long="t2"):
+        def mk(t1, pub, do):
+            n = {"when": "<% succeeded() %>"}
+            if pub is not None:
+                n["publish"] = pub
+            if do is not None:
+                n["do"] = do
+            tasks = {"t1": dict(t1, next=[n]), "t2": {"action": "core.noop"}, "t3": {"action": "core.noop"}}
+            return {"version": 1.0, "input": [{"x": 7}], "vars": [{"p": None}, {"q": None}],
+                    "output": [{"p": "<% ctx(p) %>"}, {"q": "<% ctx(q) %>"}], "tasks": tasks}
+        return mk(t1_short, pub_short, do_short), mk(t1_long, pub_long, do_long)
+
+    # 1. action inline parameters: 1 parameter x every value; 2-3 parameters x delimiters
+    for i, (txt, val) in enumerate(INLINE_VALUES):
+        s, l = base({"action": "core.echo k=%s" % txt}, {"action": "core.echo", "input": {"k": val}})
+        out.append(("action-1-%d" % i, s, l))
+    multi = [INLINE_VALUES[j] for j in (0, 3, 6, 11, 14, 16, 19, 26, 28)]
+    idx = 0
+    for d in DELIMS:
+        for a in range(len(multi)):
+            for b in range(len(multi)):
+                if tier == "quick" and (a + b) % 3:
+                    continue
+                (t1, v1), (t2, v2) = multi[a], multi[b]
+                s, l = base({"action": "core.echo k=%s%sj=%s" % (t1, d, t2)},
+                            {"action": "core.echo", "input": {"k": v1, "j": v2}})
+                out.append(("action-2-%d" % idx, s, l))
+                idx += 1
+    for d in DELIMS[:3]:
+        (t1, v1), (t2, v2), (t3, v3) = multi[0], multi[5], multi[7]
+        s, l = base({"action": "core.echo k=%s%sj=%s%si=%s" % (t1, d, t2, d, t3)},
+                    {"action": "core.echo", "input": {"k": v1, "j": v2, "i": v3}})
+        out.append(("action-3-%s" % DELIMS.index(d), s, l))
+    # 2. publish string
+    for i, (txt, val) in enumerate(INLINE_VALUES):
+        s, l = base({"action": "core.noop"}, {"action": "core.noop"}, "p=%s" % txt, [{"p": val}])
+        out.append(("publish-1-%d" % i, s, l))
+    for d in DELIMS[:2]:
+        for a in range(0, len(multi), 2):
+            (t1, v1), (t2, v2) = multi[a], multi[(a + 3) % len(multi)]
+            s, l = base({"action": "core.noop"}, {"action": "core.noop"}, "p=%s%sq=%s" % (t1, d, t2),
+                        [{"p": v1}, {"q": v2}])
+            out.append(("publish-2-%d-%d" % (DELIMS.index(d), a), s, l))
+    # 3. do: comma separated string vs list
+    for sdo, ldo in (("t2", ["t2"]), ("t2, t3", ["t2", "t3"]), ("t2,t3", ["t2", "t3"]), ("t3 , t2", ["t3", "t2"]),
+                     ("t2, noop", ["t2", "noop"]), ("t2, fail", ["t2", "fail"])):
+        s, l = base({"action": "core.noop"}, {"action": "core.noop"}, None, None, sdo, ldo)
+        out.append(("do-%s" % sdo.replace(" ", "").replace(",", "_"), s, l))
+    # 4. omitted do means continue
+    s, l = base({"action": "core.noop"}, {"action": "core.noop"}, [{"p": 1}], [{"p": 1}], None, "continue")
+    out.append(("do-omitted", s, l))
+    s, l = base({"action": "core.noop"}, {"action": "core.noop"}, "p=1", [{"p": 1}], None, ["continue"])
+    out.append(("do-omitted-list", s, l))
+    # 5. with: string vs mapping
+    for w in ("<% ctx(xs) %>", "i in <% ctx(xs) %>", "a, b in <% zip(ctx(xs), ctx(ys)) %>", " i in <% ctx(xs) %> ",
+              "{{ ctx('xs') }}", "i in {{ ctx('xs') }}"):
+        def mk(withv):
+            return {"version": 1.0, "input": [{"xs": [1, 2]}, {"ys": ["a", "b"]}],
+                    "tasks": {"t1": {"with": withv, "action": "core.echo",
+                                     "input": {"m": "<% item() %>"}}}}
+        out.append(("with-%d" % len(out), mk(w), mk({"items": w})))
+    return out
